@@ -51,11 +51,23 @@ def case(idx, payload):
     seed, cfg_kw = payload
     rng = random.Random(seed * 1000003 + idx)
     kw = dict(max_decls=4, max_members=4, max_depth=2, matlab_safe=True, typedef_same_ns=True, unique_ns=True, p_template=0.3)
-    kw.update(cfg_kw or {})
+    kw.update({k: v for k, v in (cfg_kw or {}).items() if k != 'homonym'})
     g = gen.Gen(rng, gen.Cfg(**kw))
     m = gen.gen_module_inst(g)
     res = dict(idx=idx, text="", bad=None, kinds=[])
     cands = candidates(m)
+    homonym = (cfg_kw or {}).get("homonym")
+    if cands and homonym:
+        # an unrelated class with the same simple name in another namespace (not a reference to the chosen class)
+        content, i, path, c = rng.choice(cands)
+        others = [(p2, c2) for p2, c2 in gen.walk_namespaces(m) if tuple(p2) != tuple(path) and p2
+                  and not any(d.kind in ('cls', 'enum') and (d.cls.name if d.kind == 'cls' else d.enum.name) == c.name for d in c2)]
+        if others:
+            p2, c2 = rng.choice(others)
+            c2.append(gen.Decl('cls', cls=gen.Class(None, rng.random() < 0.5, c.name, None,
+                                                    [gen.Member('ctor', name=c.name, args=[]),
+                                                     gen.Member('method', ret=gen.Ret(gen.Ty([], "double", None, False, '', True)), name="level", args=[], const=True)])))
+        cands = [(content, i, path, c)]
     text = gen.layout(rng, gen.lexemes(m), 'space')
     res["text"] = text
     if not cands:
@@ -121,7 +133,9 @@ def case(idx, payload):
 
 def run(ctx, n, off=0, collect=True):
     first = None
-    for r in fw.run_cases(case, [(ctx.seed + off, None)] * n):
+    # second part: the same simple class names in different namespaces
+    same_names = dict(homonym=True, max_depth=2, extra_kinds=['ns', 'ns', 'cls', 'cls'])
+    for r in fw.run_cases(case, [(ctx.seed + off, None)] * n + [(ctx.seed + off + 7, same_names)] * (n // 2)):
         if "crash" in r:
             raise RuntimeError(r["crash"])
         if collect:
